@@ -57,6 +57,15 @@ func genRef(t *rapid.T) (string, bool) {
 	if rapid.IntRange(0, 19).Draw(t, "deepref") == 0 {
 		n = rapid.IntRange(4, 9).Draw(t, "deeprefn")
 	}
+	if rapid.IntRange(0, 11).Draw(t, "sharef") == 0 {
+		// a pinned commit: 40 (or 7, or 64) hex digits, as pasted - upper case included
+		l := rapid.SampledFrom([]int{40, 40, 7, 64, 39, 41}).Draw(t, "shalen")
+		var b strings.Builder
+		for i := 0; i < l; i++ {
+			b.WriteByte("0123456789abcdefABCDEF"[rapid.IntRange(0, 21).Draw(t, "hex")])
+		}
+		return b.String(), false
+	}
 	parts := make([]string, n)
 	for i := range parts {
 		parts[i] = genRefComponent(t)
